@@ -119,3 +119,84 @@ Example C01_nonvacuous :
             eval_arguments ex_cfg ex_inits [] None ex_argv2 = Ok s /\
             map val (arts s) = [VBool true; VInt 5; VStr [120%N]].
 Proof. eexists. split; [vm_compute; reflexivity|]. split; vm_compute; reflexivity. Qed.
+
+(* ------------------------------------------------------------------ *)
+(** * Extended grammar: free values and "--" (ArgH/GenSim.v, HandlerSim.v)
+
+    An abstract line may also hold free values ([GFree v]: a word that is a
+    value on its own).  What a free value does is [free_step]: one more value
+    of the argument identified last when that one accepts multiple values, else
+    the positional argument's value, else the line is refused.  The legal
+    spellings [xspell] are those above plus: a free value as a word of its own,
+    and at the end of the line "--" followed by values (which may then start
+    with a dash). *)
+Require Import Celma.ArgH.GenSim Celma.ArgH.HandlerSim.
+
+Theorem C01_spelling_independent_with_free_values :
+  forall c inits us ws1 ws2,
+    fixed_notify c = true -> xspell c us ws1 -> xspell c us ws2 ->
+    eval_arguments c inits [] None ws1 = eval_arguments c inits [] None ws2.
+Proof. exact xspelling_independent. Qed.
+Print Assumptions C01_spelling_independent_with_free_values.
+
+Theorem C01_words_are_the_fold_of_their_uses :
+  forall c, fixed_notify c = true -> forall ic us ws s,
+    xspell c us ws -> eval_words c s ic ws = xfold c s ic us.
+Proof. exact xeval_words_spelled. Qed.
+Print Assumptions C01_words_are_the_fold_of_their_uses.
+
+(** the extension is conservative: the spellings and the semantics of Spell.v
+    are the free-value-less part *)
+Theorem C01_extension_conservative :
+  forall c us ws, spell c us ws -> xspell c (map embed us) ws /\
+  forall ic s, xfold c s ic (map embed us) = fold_uses c s ic us.
+Proof. intros c us ws H. split; [apply spell_xspell; exact H|intros; apply xfold_embed]. Qed.
+Print Assumptions C01_extension_conservative.
+
+(** where a free value goes *)
+Theorem C01_free_value_after_multi_value_argument :
+  forall c s ic i v0 s1 v,
+    a_multi (argdef_of c i) = true -> use_step c s ic (UVal i v0) = Ok s1 ->
+    free_step c s1 ic v = assign_value c s1 i ic v.
+Proof. exact free_value_after_multi. Qed.
+Print Assumptions C01_free_value_after_multi_value_argument.
+
+Theorem C01_flag_ends_the_value_list :
+  forall c s ic i s1 v,
+    a_multi (argdef_of c i) = false -> use_step c s ic (UFlag i) = Ok s1 ->
+    free_step c s1 ic v = positional_step c s1 ic v.
+Proof. exact free_value_after_flag. Qed.
+Print Assumptions C01_flag_ends_the_value_list.
+
+(** Non-vacuity: flag -v and multi-value vector -l/--list; the abstract line
+    [v; list=1; free 2; free -3] is spelled  -v -l 1 2 -- -3  and
+    -vl1 2 -- -3 ; both store [1; 2; -3]. *)
+Definition xv_cfg : cfg :=
+  {| args := [ex_flag (key_of_char 118%N);
+              {| a_key := {| kc := 108%N; kw := [108; 105; 115; 116]%N |}; a_kind := DVecInt; a_vmode := VMRequired;
+                 a_mand := false; a_multi := true; a_sep := 44%N; a_clear := false; a_sort := false; a_uniq := false;
+                 a_uniq_err := false; a_checks := []; a_fmts := []; a_card := CardNone; a_excl := []; a_req := [];
+                 a_depr := false; a_mix := false |}];
+     gcons := []; abbr := true; fixed_notify := true |}.
+Definition xv_line : list (guse nat) := [GFlag 0; GVal 1 [49%N]; GFree [50%N]; GFree [45; 51]%N].
+Definition xv_argv1 : list str := [[45; 118]; [45; 108]; [49]; [50]; [45; 45]; [45; 51]]%N.
+Definition xv_argv2 : list str := [[45; 118; 108; 49]; [50]; [45; 45]; [45; 51]]%N.
+
+Example C01_nonvacuous_free_values :
+  xspell xv_cfg xv_line xv_argv1 /\ xspell xv_cfg xv_line xv_argv2 /\
+  exists s, eval_arguments xv_cfg [VBool false; VInts []] [] None xv_argv1 = Ok s /\
+            map val (arts s) = [VBool true; VInts [1; 2; -3]%Z].
+Proof.
+  assert (Hv : short_name xv_cfg 0 118%N /\ takes_none xv_cfg 0) by (repeat split; try discriminate; vm_compute; auto).
+  assert (Hl : short_name xv_cfg 1 108%N) by (split; [discriminate|vm_compute; auto]).
+  assert (Hr : takes_required xv_cfg 1) by reflexivity.
+  assert (Htail : xspell xv_cfg [GFree [50%N]; GFree [45; 51]%N] [[50]; [45; 45]; [45; 51]]%N).
+  { apply gsp_free; [cbn; split; [discriminate|intros [_ H]; discriminate]|].
+    apply (gsp_ddash nat _ _ _ _ [[45; 51]%N]). repeat constructor. }
+  split; [|split].
+  - apply (gsp_flags nat _ _ _ _ [(0, 118%N)] _ _); [discriminate|repeat constructor; apply Hv|].
+    apply (gsp_short_sep nat _ _ _ _ [] 1 108%N [49%N]); auto; [constructor|].
+    cbn; split; [discriminate|intros [_ H]; discriminate].
+  - apply (gsp_glued nat _ _ _ _ [(0, 118%N)] 1 108%N [49%N]); auto; [repeat constructor; apply Hv|discriminate].
+  - eexists. split; vm_compute; reflexivity.
+Qed.
